@@ -381,7 +381,7 @@ var ErrClosed = errors.New("connection closed by server")
 // Handshake sends the 12 handshake bytes and waits for the 8-byte reply.
 func (c *Client) Handshake(d time.Duration) error {
 	c.SendRaw(HandshakeBytes)
-	deadline := time.Now().Add(d)
+	deadline := time.Now().Add(Patience(d))
 	for {
 		closed := c.absorb()
 		if c.preLeft == 0 {
@@ -409,7 +409,7 @@ func (c *Client) Send(typ int, fields ...F) uint32 {
 
 // WaitReply waits until a frame with IsReply=1 and the given ID is in the inbox; it is removed and returned.
 func (c *Client) WaitReply(id uint32, d time.Duration) (Tx, error) {
-	deadline := time.Now().Add(d)
+	deadline := time.Now().Add(Patience(d))
 	for {
 		closed := c.absorb()
 		for i, t := range c.Inbox {
@@ -431,7 +431,7 @@ func (c *Client) WaitReply(id uint32, d time.Duration) (Tx, error) {
 
 // WaitFor waits until pred holds for some inbox frame; the frame stays in the inbox.
 func (c *Client) WaitFor(pred func(Tx) bool, d time.Duration) (Tx, error) {
-	deadline := time.Now().Add(d)
+	deadline := time.Now().Add(Patience(d))
 	for {
 		closed := c.absorb()
 		for _, t := range c.Inbox {
@@ -548,7 +548,7 @@ func (c *Client) ID() int {
 // WaitServerIdleOrDone waits until the server-side handler of this connection has either returned or is blocked
 // reading with nothing left to read (it has consumed and processed everything sent so far).
 func (c *Client) WaitServerIdleOrDone(d time.Duration) error {
-	deadline := time.Now().Add(d)
+	deadline := time.Now().Add(Patience(d))
 	for {
 		if c.ServerDone() || c.conn.PeerBlocked() {
 			return nil
